@@ -122,7 +122,7 @@ func run(c *core.Ctx) error {
 		}
 		limit := 200
 		if !c.Quick() {
-			limit = 6000
+			limit = 3000
 		}
 		if len(bhs) > limit {
 			step := len(bhs) / limit
@@ -207,7 +207,7 @@ func warmHistories(c *core.Ctx) error {
 	if c.Quick() {
 		hs = lakeh.Sub(hs, 700, c.Seed)
 	} else {
-		hs = lakeh.Sub(hs, 2500, c.Seed)
+		hs = lakeh.Sub(hs, 1200, c.Seed)
 	}
 	rp := &lakeh.Replayer{C: c, M: m, Ctx: ctx, Warm: true, OnIssue: warmReport(c, m)}
 	if err := rp.ReplayAll(hs); err != nil {
@@ -283,7 +283,7 @@ func rewriteRaces(c *core.Ctx) error {
 		}
 		limit := 60
 		if !c.Quick() {
-			limit = 2000
+			limit = 800
 		}
 		if len(bhs) > limit {
 			step := len(bhs) / limit
